@@ -114,6 +114,12 @@ def enum_cases(tier):
             for sub in small + big:
                 for v in range(V):
                     yield variants(rel, sub, v, m['short'], m['n'])
+            for sub in small:
+                # the table letter in upper case (the docstring allows either) together with every way of naming the row
+                for v in range(3):
+                    cc = variants(rel, sub, v, m['short'], m['n'])
+                    for j, it in enumerate(cc['sel']): it['t'] = it['t'].upper(); it['by'] = BY[(v + j) % 3]
+                    yield cc
             if m['short']:
                 # both settings of `short` for every single table and pair, and rows printed in the short tables
                 for sub in small:
@@ -136,7 +142,7 @@ def random_case(draw):
     m = meta(rel)
     specs = [SPEC[n] for n in m['tables']]
     item = st.fixed_dictionaries({
-        't': st.sampled_from(specs + [s.upper() for s in specs[:1]]),
+        't': st.sampled_from(specs + specs + [s.upper() for s in specs]),
         'by': st.sampled_from(BY),
         'pos': st.one_of(st.sampled_from(POS + ['short']), st.integers(0, 6000)),
         'col': st.integers(0, 12)})
@@ -318,6 +324,7 @@ def run_case(case, R):
     R.label('sim:' + fam, 'ntables:%d' % len(set(tables)), 'items:%d' % min(len(sel), 4))
     for (tn, r, c, rev), it in zip(info, case['sel']):
         R.label('table:' + tn, 'row-by:' + ('rev' if rev else it['by'] if it['by'] != 'rev' else 'name'))
+        if it['t'] != it['t'].lower(): R.label('letter:upper-case' + (':reversed-connection' if rev else ''))
         if 0 < r < len(ref['rows'][tn]) - 1: R.label('row:interior')
         elif r == 0: R.label('row:first')
         else: R.label('row:last')
